@@ -170,6 +170,13 @@ theorem search_correct (r : RE) (s : List Ch) : searchB r s = true ↔ Search r 
 /-- the pattern-facet oracle (whole string) -/
 theorem full_correct (r : RE) (s : List Ch) : fullB r s = true ↔ Full r s := derivMatch_iff r none s none
 
+/-- the quantifier `{lo,hi}` / `{lo,}` of the oracle (desugared by `rep` into concatenations,
+options and a star) matches exactly `k` consecutive matches of its atom for some `lo ≤ k (≤ hi)` -/
+theorem quantifier_spec (r : RE) (lo : Nat) (hi : Option Nat) (hle : ∀ m, hi = some m → lo ≤ m)
+    (p : Option Ch) (w : List Ch) (n : Option Ch) :
+    Matches (rep r lo hi) p w n ↔ ∃ k, lo ≤ k ∧ (∀ m, hi = some m → k ≤ m) ∧ Pow r k p w n :=
+  rep_iff r lo hi hle p w n
+
 /-- test on literals: `^a(b|c)*$` with and without its anchors -/
 example : searchB (.cat (.anchor .bol) (.cat (.cls (· == 97)) (.cat (.star (.alt (.cls (· == 98)) (.cls (· == 99)))) (.anchor .eol)))) [97, 98, 99, 98] = true
     ∧ searchB (.cat (.anchor .bol) (.cls (· == 98))) [97, 98] = false
